@@ -176,19 +176,37 @@ func (t *SimpleTokenizer) ProcessTokenizerBatch(input, output []byte, offsets, l
 	for i := range offsets {
 		t.InitInput(input[offsets[i] : offsets[i]+lens[i]])
 		for t.Next() {
-			hash := t.CurrentHash()
-			target := uint32(hash >> 46)
-			var offsetLow int = int((hash >> 28) & 0x1ff)
-			var offsetHigh int = int((hash >> 37) & 0x1ff)
-			v := table[offsetLow] | (table[offsetHigh] << 32)
-			s := binary.LittleEndian.Uint64(output[target : target+8])
-			if (v & s) == v {
-				continue
-			}
-			binary.LittleEndian.PutUint64(output[target:target+8], v|s)
+			setFilterBits(output, t.CurrentHash())
 		}
 	}
 	return 0
+}
+
+// ProcessTokenizerBatch inserts the UTF-8 aware tokens of every value (an ASCII run between split characters, or one
+// multi-byte character). These are the token boundaries of the row filter (SimpleTokenFinder takes every non-ASCII
+// byte for a boundary) and the tokens a phrase is looked up by (NewPhraseTokenizer).
+func (t *SimpleUtf8Tokenizer) ProcessTokenizerBatch(input, output []byte, offsets, lens []int32) int {
+	for i := range offsets {
+		t.InitInput(input[offsets[i] : offsets[i]+lens[i]])
+		for t.Next() {
+			if t.hashValue != 0 {
+				setFilterBits(output, t.hashValue)
+			}
+		}
+	}
+	return 0
+}
+
+func setFilterBits(output []byte, hash uint64) {
+	target := uint32(hash >> 46)
+	var offsetLow int = int((hash >> 28) & 0x1ff)
+	var offsetHigh int = int((hash >> 37) & 0x1ff)
+	v := table[offsetLow] | (table[offsetHigh] << 32)
+	s := binary.LittleEndian.Uint64(output[target : target+8])
+	if (v & s) == v {
+		return
+	}
+	binary.LittleEndian.PutUint64(output[target:target+8], v|s)
 }
 
 func (t *SimpleTokenizer) FreeSimpleGramTokenizer() {}
